@@ -414,7 +414,7 @@ def families(tier):
             dict(name="2axis+3cols", struct=[(2,), (3,)], Ns=(1, 2), extents=list(itertools.product((2, 3), repeat=2)), cap=100, K=100,
                  plan=("pick", 3, 10)),
             dict(name="3axis", struct=[(2, 3)], Ns=(1, 2), extents=[(2,), (3,)], cap=100, K=100, plan=("pick", 4, 12)),
-        ]
+        ] + MEDIUM
     return [
         dict(name="1dim", struct=[()], Ns=(0, 1, 2, 3), extents=[(e,) for e in E123], cap=10 ** 9, K=0, plan=("all", 4)),
         dict(name="2dims", struct=[(), ()], Ns=(0, 1, 2, 3), extents=list(itertools.product(E123, repeat=2)), cap=10 ** 9, K=0,
@@ -429,7 +429,17 @@ def families(tier):
         dict(name="1+2axis", struct=[(), (2,)], Ns=(1, 2), extents=[(2, 2), (2, 3), (3, 2), (2, 1)], cap=64, K=48, plan=("pick", 3, 8)),
         dict(name="2axis+3cols", struct=[(2,), (3,)], Ns=(1, 2), extents=[(2, 2), (3, 2)], cap=32, K=24, plan=("pick", 2, 6)),
         dict(name="3axis", struct=[(2, 3)], Ns=(1, 2), extents=[(2,), (3,)], cap=64, K=30, plan=("pick", 3, 8)),
-    ]
+    ] + MEDIUM
+
+
+# medium-size datasets (12-40 rows, extents 4-8, 4-5 columns): reach size-threshold code paths; evenly spaced samples
+MEDIUM = [
+    dict(name="medium-1dim", struct=[()], Ns=(12, 40), extents=[(5,), (8,)], cap=0, K=5, plan=("pick", 4, 10)),
+    dict(name="medium-2dims", struct=[(), ()], Ns=(24,), extents=[(5, 4), (7, 3)], cap=0, K=5, plan=("pick", 3, 8)),
+    dict(name="medium-3dims", struct=[(), (), ()], Ns=(18,), extents=[(4, 3, 5)], cap=0, K=4, plan=("pick", 2, 6)),
+    dict(name="medium-5cols", struct=[(5,)], Ns=(12,), extents=[(4,)], cap=0, K=4, plan=("pick", 3, 8)),
+    dict(name="medium-4cols+1", struct=[(4,), ()], Ns=(16,), extents=[(4, 5)], cap=0, K=3, plan=("pick", 2, 6)),
+]
 
 
 def is_sampled(tier):
